@@ -88,10 +88,10 @@ def e2e_dir(prop, tier):
     return os.path.join(WORK, "e2e", f"{prop}-{tier}")
 
 
-def gen_batch(prop, tier, exclude, nbins=16):
-    d = e2e_dir(prop, tier)
+def gen_batch(prop, tier, exclude, nbins=16, only=None, d=None):
+    d = d or e2e_dir(prop, tier)
     os.makedirs(d, exist_ok=True)
-    p = run([E2E_GEN, prop, tier, d, str(nbins), os.path.join(HARNESS, "refmodel"), ",".join(map(str, sorted(exclude)))])
+    p = run([E2E_GEN, prop, tier, d, str(nbins), os.path.join(HARNESS, "refmodel"), ",".join(map(str, sorted(exclude)))] + ([str(only)] if only is not None else []))
     total, bins, prefix = p.stdout.split()
     if not os.path.exists(os.path.join(d, "Cargo.lock")):
         shutil.copy("/repo/Cargo.lock", os.path.join(d, "Cargo.lock"))
@@ -173,12 +173,32 @@ def defs_table(d):
 
 
 def bin_prefix(d):
-    prop, tier = os.path.basename(d).split("-")
+    prop, tier = os.path.basename(d).split("-")[:2]
     return f"{prop.lower()}{tier[0]}"
 
 
-def run_bins(d, bins, timeout):
+def replay_e2e(prop, v):
+    """Targeted replay of one recorded execution: rebuild only that lexer from the working tree and run only that input and script."""
+    tier = v.get("tier", "quick")
+    d = os.path.join(WORK, "e2e", f"{prop}-{tier}-replay")
+    gen_batch(prop, tier, set(), nbins=1, only=int(v["lexer"]), d=d)
+    rc, errors, secs, stderr = build_batch(d, 900)
+    if rc != 0:
+        print(f"replay: the lexer does not build on the current tree: {errors[:3]}")
+        return 1
+    reports = run_bins(d, 1, 600, {"VERIF_REPLAY_INPUT": v["input"], "VERIF_REPLAY_SCRIPT": ",".join(map(str, v.get("script_raw", [])))})
+    viols = [x for r in reports for g in r["groups"] for x in g["violations"]]
+    if viols:
+        x = viols[0]
+        print(f"replay: VIOLATION reproduced: {x['what']}\n  expected {x['expected'][:600]}\n  observed {x['observed'][:600]}")
+        return 1
+    print("replay: no violation on the current tree for this definition, input and script")
+    return 0
+
+
+def run_bins(d, bins, timeout, extra_env=None):
     env = dict(ENV)
+    env.update(extra_env or {})
     env["VERIF_DUMP_DIR"] = os.path.join(d, "dumps")
     env["VERIF_THREADS"] = str(max(2, (2 * NCPU) // max(1, bins)))
     procs = []
@@ -259,6 +279,7 @@ def run_e2e(prop, tier, build_timeout=900, run_timeout=1800):
             meta = res["groups"].setdefault(gi, {k: g[k] for k in ["max_len", "alphabet", "max_dev", "dev_positions", "ctors", "inputs_per_lexer"]})
             meta["max_dev_reached"] = max(meta.get("max_dev_reached", 0), g.get("max_dev_reached", 0))
             for v in g["violations"]:
+                v["tier"] = tier
                 res["violations"].append(v)
             res["drift_samples"].extend(g.get("drift_samples", []))
             if len(res["samples"]) < 3:
